@@ -138,3 +138,90 @@ Lemma hw_energy_period k w lk uk P c0 lo up x (n m l : Z) : 0 < P ->
   hw_energy Rops k w lk uk (KPeriodic P c0) (lo + IZR m * P) (up + IZR l * P) (x + IZR n * P) = hw_energy Rops k w lk uk (KPeriodic P c0) lo up x /\
   hw_force Rops k w lk uk (KPeriodic P c0) (lo + IZR m * P) (up + IZR l * P) (x + IZR n * P) = hw_force Rops k w lk uk (KPeriodic P c0) lo up x.
 Proof. intros HP. unfold hw_energy, hw_force. rewrite (hw_distance_period P c0 lo up x n m l HP). split; reflexivity. Qed.
+
+(* ------------------------------------------------------------------ unit vectors at the two singular geometries: the reported
+   gradient (hence the restraint force) is the null vector at coincident AND at exactly opposite vectors (never infinite) *)
+Lemma tiny28_pos : 0 < tiny28 Rops.
+Proof. unfold tiny28; cbn. apply Rdiv_lt_0_compat; lra. Qed.
+Lemma uv_grad_singular (a b : vec3 (T:=R)) : v3dot Rops a b = 1 \/ v3dot Rops a b = -1 -> uv_grad Rops a b = (0, 0, 0).
+Proof.
+  intros Hc. unfold uv_grad. cbn -[v3dot tiny28 v3scale]. pose proof tiny28_pos as Ht.
+  replace (Rltb (1 - v3dot Rops a b * v3dot Rops a b) (tiny28 Rops)) with true; [reflexivity|].
+  symmetry; apply Rltb_true. destruct Hc as [-> | ->]; lra.
+Qed.
+Lemma v3dot_opp_self (a : vec3 (T:=R)) : is_unit a -> v3dot Rops a a = 1 /\ v3dot Rops a (v3scale Rops (-1) a) = -1.
+Proof.
+  destruct a as [[x y] z]. unfold is_unit, v3norm2, v3dot, v3scale; cbn. intros H. split; [exact H | lra].
+Qed.
+Lemma hr_unit_singular_force k w (a : vec3 (T:=R)) : is_unit a ->
+  hr_force Rops PI k w KUnit (V3 a) (V3 a) = Some (V3 (- (1 / 2) * k / (w * w) * 0, - (1 / 2) * k / (w * w) * 0, - (1 / 2) * k / (w * w) * 0)) /\
+  hr_force Rops PI k w KUnit (V3 a) (V3 (v3scale Rops (-1) a)) = Some (V3 (- (1 / 2) * k / (w * w) * 0, - (1 / 2) * k / (w * w) * 0, - (1 / 2) * k / (w * w) * 0)).
+Proof.
+  intros Ha. destruct (v3dot_opp_self a Ha) as [H1 H2]. unfold hr_force. cbn [comp_lgrad].
+  rewrite (uv_grad_singular a a (or_introl H1)), (uv_grad_singular a _ (or_intror H2)). split; reflexivity.
+Qed.
+
+(* ------------------------------------------------------------------ one metadynamics hill / one OPES kernel *)
+Lemma hill_wrap W sigma kind x c : comp_ok kind ->
+  hill_energy Rops PI W sigma kind (comp_wrap Rops kind x) (comp_wrap Rops kind c) = hill_energy Rops PI W sigma kind x c /\
+  hill_force Rops PI W sigma kind (comp_wrap Rops kind x) (comp_wrap Rops kind c) = hill_force Rops PI W sigma kind x c.
+Proof.
+  intros Hk. unfold hill_energy, hill_force, hill_value. destruct (comp_wrap_dist2 kind x c Hk) as [E1 E2]. rewrite E1, E2. split; reflexivity.
+Qed.
+Lemma hill_periodic_images W sigma P c0 x c (n m : Z) : 0 < P ->
+  hill_energy Rops PI W sigma (KPeriodic P c0) (VS (x + IZR n * P)) (VS (c + IZR m * P)) = hill_energy Rops PI W sigma (KPeriodic P c0) (VS x) (VS c) /\
+  hill_force Rops PI W sigma (KPeriodic P c0) (VS (x + IZR n * P)) (VS (c + IZR m * P)) = hill_force Rops PI W sigma (KPeriodic P c0) (VS x) (VS c).
+Proof.
+  intros HP. unfold hill_energy, hill_force, hill_value. cbn [comp_dist2 comp_lgrad].
+  rewrite (per_period P x c n m HP), (per_grad_period P x c n m HP). split; reflexivity.
+Qed.
+Lemma hill_quaternion_sign W sigma q c :
+  hill_energy Rops PI W sigma KQuat (VQ (qneg Rops q)) (VQ c) = hill_energy Rops PI W sigma KQuat (VQ q) (VQ c) /\
+  hill_energy Rops PI W sigma KQuat (VQ q) (VQ (qneg Rops c)) = hill_energy Rops PI W sigma KQuat (VQ q) (VQ c).
+Proof. unfold hill_energy, hill_value. cbn [comp_dist2]. rewrite q_sign_l, q_sign_r. split; reflexivity. Qed.
+Lemma opes_kernel_images h sigma cut vac P c0 kc x (n m : Z) : 0 < P ->
+  opes_kernel Rops PI h sigma cut vac (KPeriodic P c0) (kc + IZR n * P) (x + IZR m * P) = opes_kernel Rops PI h sigma cut vac (KPeriodic P c0) kc x /\
+  opes_kernel Rops PI h sigma cut vac (KPeriodic P c0) (cvc_wrap Rops c0 P kc) (cvc_wrap Rops c0 P x) = opes_kernel Rops PI h sigma cut vac (KPeriodic P c0) kc x.
+Proof.
+  intros HP. unfold opes_kernel. cbn [comp_dist2]. rewrite (per_period P kc x n m HP).
+  destruct (wrap_dist2_both c0 c0 P kc x HP) as [E _]. rewrite E. split; reflexivity.
+Qed.
+
+(* ------------------------------------------------------------------ on the manifolds: along every (tangent) curve through the
+   value the derivative of the restraint energy is minus <restraint force, velocity> *)
+Lemma v3dot_scale_l s (g e : vec3 (T:=R)) : v3dot Rops (v3scale Rops s g) e = s * v3dot Rops g e.
+Proof. destruct g as [[a b] c], e as [[x y] z]. unfold v3dot, v3scale; cbn. ring. Qed.
+Lemma qdot_scale_l s (g e : quat (T:=R)) : qdot Rops (qscale Rops s g) e = s * qdot Rops g e.
+Proof. destruct g as [[[a b] c] d], e as [[[x y] z] u]. unfold qdot, qscale; cbn. ring. Qed.
+
+Lemma hr_unit_force_curve k w (x y z : R -> R) (ex ey ez : R) (c : vec3 (T:=R)) :
+  is_derive x 0 ex -> is_derive y 0 ey -> is_derive z 0 ez -> uv_nonsingular (x 0, y 0, z 0) c ->
+  is_derive (fun t => 1 / 2 * k / (w * w) * uv_dist2 Rops (x t, y t, z t) c) 0
+            (- v3dot Rops (v3scale Rops (- (1 / 2) * k / (w * w)) (uv_grad Rops (x 0, y 0, z 0) c)) (ex, ey, ez)).
+Proof.
+  intros Hx Hy Hz Hns.
+  pose proof (is_derive_scal (fun t => uv_dist2 Rops (x t, y t, z t) c) 0 (1 / 2 * k / (w * w)) _
+                (uv_grad_curve_derive x y z ex ey ez c Hx Hy Hz Hns)) as H.
+  rewrite v3dot_scale_l.
+  match type of H with is_derive _ _ ?l => match goal with |- is_derive _ _ ?r => replace r with l by (unfold Rdiv; ring) end end.
+  exact H.
+Qed.
+Lemma hr_quat_force_curve k w (a0 a1 a2 a3 : R -> R) (e0 e1 e2 e3 : R) (c : quat (T:=R)) :
+  is_derive a0 0 e0 -> is_derive a1 0 e1 -> is_derive a2 0 e2 -> is_derive a3 0 e3 ->
+  qdot Rops (a0 0, a1 0, a2 0, a3 0) (e0, e1, e2, e3) = 0 -> q_nonsingular (a0 0, a1 0, a2 0, a3 0) c ->
+  is_derive (fun t => 1 / 2 * k / (w * w) * q_dist2 Rops PI (a0 t, a1 t, a2 t, a3 t) c) 0
+            (- qdot Rops (qscale Rops (- (1 / 2) * k / (w * w)) (q_grad Rops PI (a0 0, a1 0, a2 0, a3 0) c)) (e0, e1, e2, e3)).
+Proof.
+  intros H0 H1 H2 H3 Ht Hns.
+  pose proof (is_derive_scal (fun t => q_dist2 Rops PI (a0 t, a1 t, a2 t, a3 t) c) 0 (1 / 2 * k / (w * w)) _
+                (q_grad_curve_derive a0 a1 a2 a3 e0 e1 e2 e3 c H0 H1 H2 H3 Ht Hns)) as H.
+  rewrite qdot_scale_l.
+  match type of H with is_derive _ _ ?l => match goal with |- is_derive _ _ ?r => replace r with l by (unfold Rdiv; ring) end end.
+  exact H.
+Qed.
+Lemma hr_manifold_unfold k w a b q c :
+  hr_energy Rops PI k w KUnit (V3 a) (V3 b) = Some (1 / 2 * k / (w * w) * uv_dist2 Rops a b) /\
+  hr_force Rops PI k w KUnit (V3 a) (V3 b) = Some (V3 (v3scale Rops (- (1 / 2) * k / (w * w)) (uv_grad Rops a b))) /\
+  hr_energy Rops PI k w KQuat (VQ q) (VQ c) = Some (1 / 2 * k / (w * w) * q_dist2 Rops PI q c) /\
+  hr_force Rops PI k w KQuat (VQ q) (VQ c) = Some (VQ (qscale Rops (- (1 / 2) * k / (w * w)) (q_grad Rops PI q c))).
+Proof. repeat split. Qed.
